@@ -107,7 +107,8 @@ def gen_case(rng, measure=None, window=None, subpix=None, small=False, max_nd=No
         grids = (gmin, gmax)
     return {"measure": measure, "window": window, "subpix": subpix, "rows": rows, "cols": cols,
             "left": left, "right": right, "bands": bands, "band": band, "mask_l": mask_l, "mask_r": mask_r,
-            "disp": [dmin, dmax], "grids": grids, "perm_r": perm_r}
+            "disp": [dmin, dmax], "grids": grids, "perm_r": perm_r,
+            "conv_r": rng.choice([(5, 7), (4, 0), (1, 0), (7, 5)]) if (mask_r is not None and rng.random() < 0.35) else None}
 
 
 def case_grids(case):
@@ -139,12 +140,23 @@ def datasets(case):
                                 grids=case["grids"])
     else:
         left = pu.image_dataset(arr(case["left"]), disp=tuple(case["disp"]), mask=case["mask_l"], bands=case["bands"])
+    # the right dataset may use another mask convention than the left one (attrs valid_pixels / no_data_mask are per
+    # dataset): the case keeps the canonical classes (0 valid, 1 no data, anything else invalid), the right dataset
+    # is built with its own two codes
+    conv = case.get("conv_r")
+    mask_r = case["mask_r"]
+    if conv and mask_r is not None:
+        v, nd = conv
+        mask_r = [[v if x == VALID else nd if x == NODATA else x for x in row] for row in mask_r]
+    case = dict(case, mask_r=mask_r)
     perm = case.get("perm_r") if case["bands"] is not None else None
     if perm:
         right = pu.image_dataset(arr([case["right"][j] for j in perm]), disp=None, mask=case["mask_r"],
                                  bands=[case["bands"][j] for j in perm])
     else:
         right = pu.image_dataset(arr(case["right"]), disp=None, mask=case["mask_r"], bands=case["bands"])
+    if conv:
+        right.attrs["valid_pixels"], right.attrs["no_data_mask"] = conv
     return left, right
 
 
